@@ -240,6 +240,12 @@ Proof.
   split; [apply Rlz_init | reflexivity].
 Qed.
 
+(* every script maps onto a DirtyDefs history of the buffer opened on the same file, with the same ghost disk *)
+Theorem ex_script_history input wa cs :
+  let x := xrun (xinit input wa) cs in
+  exists dops, Rlz (lb (xs x)) (D.lb (D.run_dops (D.ebuf_open data) dops)) /\ D.disk (D.run_dops (D.ebuf_open data) dops) = xdisk x.
+Proof. cbv zeta. destruct (XInv_run cs _ (XInv_init input wa)) as (e & (dops & ->) & R & DK). exists dops. auto. Qed.
+
 (* the dirty test of the model (what q, e, b ask) never reports clean while text and ghost disk differ *)
 Theorem ex_clean_sound input wa cs :
   let x := xrun (xinit input wa) cs in
